@@ -101,6 +101,8 @@ func NondetStringN(name string, n int, alphabet string) string { return NondetSt
 
 func Param(name string) int { return rf.Params[name] }
 
+func NondetBytesLen(name string, maxLen int) []byte { return make([]byte, int(num(name))) }
+
 func NondetFloat32(name string) float32 { return math.Float32frombits(uint32(num(name))) }
 
 func Fork(name string, n int) int { return int(num(name)) }
